@@ -1139,7 +1139,7 @@ def run(ctx):
     exp_configs = n_configs(vt)
     if ctx.exhaustive and ctx.stats["A.configs"] != exp_configs:
         raise RuntimeError(f"enumerated {ctx.stats['A.configs']} VGBS configurations, declared {exp_configs}")
-    ctx.cov["samples"] = {k: by_part[k] for k in sorted(by_part)}
+    ctx.cov["samples"] = [{"part": k, "case": c} for k in sorted(by_part) for c in by_part[k]]
     ctx.cov["work_units"] = {"vgbs": len(vt), "chemistry": len(ct), "similarity": len(st), "completed": done}
     ctx.cov["declared_lattice"] = {
         "A.adjacency_matrices": dict(vdecl, note=("graphs with >= 1 edge: 2 nodes all (1); 3 and 4 nodes one representative per isomorphism class (3, 10)" if quick else "all labelled graphs with >= 1 edge on 2, 3, 4 nodes (1, 7, 63)") + "; plus one fixed weighted symmetric matrix (non-zero diagonal, negative entries) per size"),
